@@ -19,14 +19,72 @@ impl Prop for C01 {
         ctx.tier.pick(10_000, 150_000)
     }
     fn rule(&self) -> &'static str {
-        "inputs from all generators (seeds, grammar programs with decorations, mutated/spliced/truncated programs, token soup, byte soup), each under a randomly sampled full configuration; oracle: blank-stripped character sequences equal ignoring ASCII case, and every case difference lies (by the reference scanner on the input) inside a keyword-capable word or a directive name. Non-trivial: input has >= 2 reference tokens and output != input; distinct by hash of (input, configuration)."
+        "inputs from all generators (seeds, grammar programs with decorations, mutated/spliced/truncated programs, token soup, byte soup), each under a randomly sampled full configuration; oracle: blank-stripped character sequences equal ignoring ASCII case, and every case difference lies (by the reference scanner on the input) inside a keyword-capable word or a directive name. One case in twenty runs the claim through the real binary (stdin -> stdout and files mode; UTF-8 with a byte order mark, with U+FEFF as ordinary first characters). Non-trivial: input has >= 2 reference tokens and output != input; distinct by hash of (input, configuration)."
     }
     fn assumptions(&self) -> Vec<String> {
         vec!["reference scanner (harness/src/refscan.rs) delimits words and directive names on the input".into()]
     }
+    fn needs_cli(&self) -> bool {
+        true
+    }
     fn run_case(&self, ctx: &Ctx, idx: u64) -> CaseOut {
         let mut out = CaseOut::default();
         let mut rng = Rng::derive(ctx.seed, "C01", idx);
+        if idx % 20 == 19 && ctx.cli_bin.exists() {
+            // the same claim on the text as the real binary reads and writes it (stdin -> stdout and
+            // files mode, UTF-8 with and without byte order mark, U+FEFF as ordinary first character)
+            let scratch = crate::cli::Scratch::new(&ctx.work_dir, "c01");
+            for _ in 0..6 {
+                let (text, kind) = common::any_input(ctx, &mut rng);
+                let prefix = *rng.pick(&["", "", "\u{feff}", "\u{feff}\u{feff}", "\u{feff} \u{feff}"]);
+                let input = format!("{prefix}{text}");
+                let cfg = Cfg::sample_sane(&mut rng);
+                let via_file = rng.bool();
+                out.evals += 1;
+                out.count(if via_file { "cli.files_mode" } else { "cli.stdin_mode" });
+                if !prefix.is_empty() {
+                    out.count("cli.inputs_starting_with_u_feff");
+                }
+                let output_bytes = if via_file {
+                    let f = scratch.path.join(format!("f{}.pas", rng.below(100_000)));
+                    if std::fs::write(&f, input.as_bytes()).is_err() {
+                        continue;
+                    }
+                    let mut a = cfg.to_cli_args();
+                    a.push(f.file_name().unwrap().to_string_lossy().to_string());
+                    let r = crate::cli::run(crate::cli::Invocation { bin: &ctx.cli_bin, args: a, cwd: &scratch.path, stdin: None, env: vec![], as_nobody: false });
+                    if !r.ok() {
+                        out.count("cli.run_failed");
+                        continue;
+                    }
+                    std::fs::read(&f).unwrap_or_default()
+                } else {
+                    let r = crate::cli::run(crate::cli::Invocation { bin: &ctx.cli_bin, args: cfg.to_cli_args(), cwd: &scratch.path, stdin: Some(input.as_bytes().to_vec()), env: vec![], as_nobody: false });
+                    if !r.ok() {
+                        out.count("cli.run_failed");
+                        continue;
+                    }
+                    r.stdout
+                };
+                let Ok(output) = String::from_utf8(output_bytes) else {
+                    out.violate("C01", "cli-output-not-utf8", format!("[{}] {kind}: the binary produced bytes that are not UTF-8 for a UTF-8 input", cfg.short()), &input, Some(&cfg));
+                    continue;
+                };
+                // one leading U+FEFF is the byte order mark: it is kept, and the text after it is what is formatted
+                let how = if via_file { "files mode" } else { "stdin -> stdout" };
+                let (ti, to) = (input.strip_prefix('\u{feff}'), output.strip_prefix('\u{feff}'));
+                let (ti, to) = if ti.is_some() { (ti, to) } else { (None, None) };
+                if ti.is_some() && to.is_none() {
+                    out.violate("C01", "content-changed", format!("through the binary ({how}): the input starts with a byte order mark, the output does not"), &input, Some(&cfg));
+                } else if let Err(e) = oracle::check_preservation(ti.unwrap_or(&input), to.unwrap_or(&output)) {
+                    out.violate("C01", "content-changed", format!("through the binary ({how}): {e}"), &input, Some(&cfg));
+                }
+                if output != input {
+                    out.nontrivial.push(rng::hash_combine(rng::hash_str(&input), rng::hash_str(&cfg.short())));
+                }
+            }
+            return out;
+        }
         for k in 0..BATCH {
             let (input, kind) = common::any_input(ctx, &mut rng);
             let cfg = Cfg::sample(&mut rng);
